@@ -78,6 +78,14 @@ def plan(tier, seed):
     for i in range(n):
         specs.append({"hist": i, "kind": KINDS[i % 2], "profile": PROFILES[(i // 2) % len(PROFILES)],
                       "timeout": 480})
+    # the resume histories walk through all nine (unsuccessful, unsuccessful) outcome transitions of one item
+    extra = 0
+    for sp in specs:
+        if sp["profile"] == "resume":
+            sp["transition"] = extra
+            extra += 1
+    for t in range(extra, 9):          # quick has 8 resume histories: add what is missing so that all 9 pairs occur
+        specs.append({"hist": n + t, "kind": KINDS[t % 2], "profile": "resume", "transition": t, "timeout": 480})
     return specs
 
 
@@ -89,6 +97,9 @@ ONLY_POOL = ["zz-only", "m1x", "old_9"]
 
 P_RESUME = [["ok"], ["fail_nofile", "ok"], ["fail_file", "ok"], ["omit", "ok"], ["fail_file", "fail_nofile", "ok"],
             ["fail_file"], ["omit"], ["fail_nofile"], ["omit", "fail_file", "ok"], ["fail_file", "fail_file", "ok"]]
+# every ordered pair of unsuccessful outcomes on consecutive attempts of one item (leftovers of attempt n must not
+# leak into attempt n+1), then success
+P_TRANSITIONS = [[a, b, "ok"] for a in ("fail_file", "fail_nofile", "omit") for b in ("fail_file", "fail_nofile", "omit")]
 P_REEXEC = [["ok"], ["ok"], ["ok", "fail_file"], ["ok", "omit"], ["ok", "fail_nofile"], ["ok", "ok", "fail_file"],
             ["fail_file", "ok"], ["omit", "ok"], ["ok", "fail_file", "ok"]]
 P_CRASH = [["ok", "crash"], ["crash", "ok"], ["ok", "crash", "ok"]]
@@ -96,7 +107,7 @@ P_CRASH = [["ok", "crash"], ["crash", "ok"], ["ok", "crash", "ok"]]
 MAX_EXEC = {"quick": 16, "thorough": 24}
 
 
-def gen_history(rng, kind, profile, tier="quick"):
+def gen_history(rng, kind, profile, tier="quick", transition=None):
     from vmon.models import jobmapmodel as jm
 
     n_items = rng.randint(3, 5) if kind == "single" else rng.randint(3, 4)
@@ -120,6 +131,9 @@ def gen_history(rng, kind, profile, tier="quick"):
         # guarantee a first-attempt failure, a plain success and (vector) a half-failed item
         plans[all_jobs[0]] = ["ok"]
         plans[all_jobs[-1]] = list(rng.choice([["fail_nofile", "ok"], ["fail_file", "ok"], ["omit", "ok"]]))
+        if profile == "resume" and len(all_jobs) >= 3:
+            plans[all_jobs[1]] = list(P_TRANSITIONS[transition % len(P_TRANSITIONS)] if transition is not None
+                                      else rng.choice(P_TRANSITIONS))
         if kind == "vector":
             multi = [k for k in keys if confs[k] > 1]
             k = rng.choice(multi)
@@ -144,7 +158,7 @@ def gen_history(rng, kind, profile, tier="quick"):
     if profile == "resume":
         if rng.random() < 0.4:
             prepop[0] = {"src": some(keys[1:], 1, 1), "only": []}
-        for _ in range(rng.randint(2, 4)):
+        for _ in range(rng.randint(3, 4)):
             runs.append(run("a", 0))
         if rng.random() < 0.3 and n_items >= 4:
             sources = [keys[:-1], list(keys)]
@@ -346,7 +360,7 @@ def run_chunk(spec, ctx):
     if not ctx.want(case):
         return
     rng = ctx.rng("history", spec["hist"])
-    H = gen_history(rng, spec["kind"], spec["profile"], ctx.tier)
+    H = gen_history(rng, spec["kind"], spec["profile"], ctx.tier, transition=spec.get("transition"))
     expects = simulate_history(H)
     ctx.case(case, dkey=json.dumps(H, sort_keys=True), nontrivial=nontrivial(expects), sample=brief(H, expects))
     ctx.count(f"history.{H['kind']}.started")
